@@ -4,7 +4,7 @@
      dds/src/dcps/dcps_domain_participant/communication_methods.rs
                                                      handle_data: dispatch of every submessage kind to the
                                                      SPDP stateless reader, every user-defined and builtin
-                                                     stateful reader / writer; handle_gap (range loop),
+                                                     stateful reader / writer; handle_gap,
                                                      handle_heartbeat, HEARTBEAT_FRAG, ACKNACK, NACK_FRAG
      dds/src/rtps/stateful_reader.rs, writer_proxy.rs   on_data_submessage, on_data_frag_submessage,
                                                      reconstruct_data_from_frag, write_message (ACKNACK / NACK_FRAG reply)
